@@ -912,7 +912,14 @@ def generate(seed, index, tier):
             recipe["faulty"] = {"watch": k.choice(["x", "z"]), "index": 0, "lo": k.uniform(-2.0, -0.2), "hi": k.uniform(0.8, 3.0), "value": k.choice(["-inf", "-inf", "nan", "+inf"])}
         transitions = k.randint(20, 120)
     else:
-        sub, args = k.choice(CLI_SCENES)
+        if k.bernoulli(0.35):
+            # any model the CLI can emit, under the sliding-window / block-update mixture or HMC
+            from sim.scenelib import CLI_MODEL_VECTORS
+
+            sub = k.choice(["mcmc", "mcmc", "hmc"])
+            args = list(k.choice(CLI_MODEL_VECTORS)) + (["--steps", "3", "--step_size", "0.002"] if sub == "hmc" else [])
+        else:
+            sub, args = k.choice(CLI_SCENES)
         recipe = {"kind": "cli", "sub": sub, "args": args, "iterations": 1, "freq": 1000, "log_every": k.choice([1, 2, 5]), "logger": k.bernoulli(0.7),
                   "op_knobs": {"disable_adaptation": k.bernoulli(0.2), "target_acc": k.choice([None, None, 0.1, 0.6]),
                                "gmrf_scaler": k.choice([None, None, 1.0, 1.0, 1.3, 5.0]), "width_scale": k.choice([None, None, 0.1, 4.0])}}
